@@ -810,6 +810,16 @@ func (sc *Scope) idxTerm(v Val) string {
 
 func (sc *Scope) index(e EIndex) Val {
 	x := sc.x
+	// an element of an array held in memory (a field or variable): read that element, not a copy of the whole array
+	if _, isSel := e.X.(ESelect); isSel {
+		if loc, ty, ok := sc.tryLvalue(e.X); ok {
+			if arr, isArr := types.Unalias(ty).Underlying().(*types.Array); isArr {
+				if _, isBytes := isByteArray(ty); !isBytes || x.c.Int {
+					return Val{T: x.loadOwned(sc.st, arr.Elem(), elt(loc, sc.idxTerm(sc.eval(e.I))), ""), Ty: arr.Elem()}
+				}
+			}
+		}
+	}
 	a := sc.eval(e.X)
 	if strings.HasPrefix(a.K, "ghost:") {
 		gm := x.w.GhostMaps[a.K[len("ghost:"):]]
